@@ -25,6 +25,7 @@ CONSTANTS MaxFun,            \* evaluation budget
           RhoLevels,         \* rho takes levels RhoLevels (= rhobeg) down to rhoend
           RhoendScaleDrop,   \* 1: restarts.rhoend_scale < 1 (rhoend drops one level per restart), 0: scale = 1
           MaxRuns,           \* state constraint on the number of runs
+          WithAuto, WithFalseSuccess,   \* include the auto-detected-restart / false-success exits (switched off for the driven replay, which cannot script them)
           DefSoftSwap,       \* F-03 soft_restart saves (nx, nsamples) for (nsamples, eval_num)
           DefTrialLost,      \* F-04 trial point not saved on the trust-region-increase exit
           DefX0EvalNum,      \* F-05 exit at x0 reports evaluation number 0
@@ -42,9 +43,11 @@ IsFinite(v) == v # NaN /\ v # Inf
 MinI(a, b) == IF a <= b THEN a ELSE b
 
 VARIABLES pc, nf, nx, nruns, mdl, rho, rhoendL, rhoendC, softLSR, softLastFopt, hardLSR, best, exitInfo,
-          ptval, ptns, geomLeft, addLeft, restarts, x0inherit, ret, npt, batchlog
+          ptval, ptns, geomLeft, addLeft, restarts, x0inherit, ret, npt, batchlog,
+          geomDone,  \* slots already moved by the geometry steps of the soft restart in progress (the code moves DISTINCT closest points)
+          phaseReq   \* samples per point asked for by the nsamples callback for a whole phase (initial set; one soft restart): the code calls it once per phase
 vars == <<pc, nf, nx, nruns, mdl, rho, rhoendL, rhoendC, softLSR, softLastFopt, hardLSR, best, exitInfo,
-          ptval, ptns, geomLeft, addLeft, restarts, x0inherit, ret, npt, batchlog>>
+          ptval, ptns, geomLeft, addLeft, restarts, x0inherit, ret, npt, batchlog, phaseReq, geomDone>>
 
 NoExit == [flag |-> "none", msg |-> "none"]   \* exitInfo additionally records whether the run was left from the initialisation phase (no Jacobian returned then)
 Exit(f, m) == [flag |-> f, msg |-> m]
@@ -57,7 +60,7 @@ Restartable(e) == \/ e.flag \in {"tr_increase", "linalg", "slow", "eval_error", 
 
 Init == /\ pc = "x0eval" /\ nf = 0 /\ nx = 0 /\ nruns = 0 /\ mdl = NoModel /\ rho = RhoLevels /\ rhoendL = 0 /\ rhoendC = 0
         /\ softLSR = 0 /\ softLastFopt = 0 /\ hardLSR = 0 /\ best = NoBest /\ exitInfo = NoExit /\ ptval = <<>> /\ ptns = <<>>
-        /\ geomLeft = 0 /\ addLeft = 0 /\ restarts = 0 /\ x0inherit = FALSE /\ ret = NoBest /\ npt = NPT /\ batchlog = <<>>
+        /\ geomLeft = 0 /\ addLeft = 0 /\ restarts = 0 /\ x0inherit = FALSE /\ ret = NoBest /\ npt = NPT /\ batchlog = <<>> /\ phaseReq = 1 /\ geomDone = {}
 
 \* ------------------------------------------------------------------ evaluate_objective (controller.py:625-659)
 \* One batch: req samples requested; ran = min(req, MaxFun - nf) are run.  v1 = objective of the first sample,
@@ -66,11 +69,14 @@ Ran(req) == MinI(req, MaxFun - nf)
 BatchExit(req, v) == IF Ran(req) = 0 THEN Exit("maxfun", "maxfun")
                      ELSE IF Leq(v, Small) THEN Exit("success", "small")       \* overrides MAXFUN
                      ELSE IF Ran(req) < req THEN Exit("maxfun", "maxfun") ELSE NoExit
-Counted(req, v) == /\ nf' = nf + Ran(req)
-                   /\ nx' = IF Ran(req) > 0 THEN nx + 1 ELSE nx
-                   /\ ptval' = IF Ran(req) > 0 THEN Append(ptval, v) ELSE ptval
-                   /\ ptns' = IF Ran(req) > 0 THEN Append(ptns, Ran(req)) ELSE ptns
-                   /\ batchlog' = Append(batchlog, [req |-> req, ran |-> Ran(req), nfafter |-> nf + Ran(req)])
+Counted(req, v1, v) ==
+  /\ nf' = nf + Ran(req)
+  /\ nx' = IF Ran(req) > 0 THEN nx + 1 ELSE nx
+  /\ ptval' = IF Ran(req) > 0 THEN Append(ptval, v) ELSE ptval
+  /\ ptns' = IF Ran(req) > 0 THEN Append(ptns, Ran(req)) ELSE ptns
+  /\ batchlog' = Append(batchlog, [req |-> req, ran |-> Ran(req), nfafter |-> nf + Ran(req), v1 |-> v1, v |-> v])
+\* the mean of samples containing NaN is NaN; containing +Inf it is +Inf or NaN
+MeanOK(v1, v) == (IsNaN(v1) => IsNaN(v)) /\ (v1 = Inf => v \in {Inf, NaN})
 \* put the batch into slot k: change_point with the first sample, then add_new_sample (ran-1 times, abstracted to one)
 IntoSlot(m, k, v1, v, ran, en) == IF ran >= 2 THEN AddSampleN(ChangePointM(m, k, v1, en), k, v, ran) ELSE ChangePointM(m, k, v1, en)
 
@@ -81,7 +87,7 @@ RestartOrExit(e) == IF Restartable(e) /\ UseRestarts /\ SoftRestarts
 NoEval == UNCHANGED <<nf, nx, ptval, ptns, batchlog>>
 Radii == <<rho, rhoendL, rhoendC>>
 Hard == <<hardLSR, best, x0inherit, npt>>
-Soft == <<softLSR, softLastFopt, geomLeft, addLeft>>
+Soft == <<softLSR, softLastFopt, geomLeft, addLeft, geomDone>>
 
 \* -------------------------------------------------------------------- start of a run (solver.py:157-226)
 X0Eval ==
@@ -94,7 +100,7 @@ X0Eval ==
           LET ran == MinI(req, MaxFun - nf) IN       \* the first evaluation is unconditional: guarded by nf < MaxFun below
           /\ nf < MaxFun
           /\ ((best.has /\ MaxSamples = 1) => v = best.obj)   \* deterministic objective: re-evaluating the restart point (the best point so far) returns its value
-          /\ Counted(req, v)
+          /\ Counted(req, v, v)
           /\ LET e == IF Leq(v, Small) THEN Exit("success", "small") ELSE IF ran < req THEN Exit("maxfun", "maxfun") ELSE NoExit IN
              IF e # NoExit
              THEN /\ exitInfo' = [flag |-> e.flag, msg |-> e.msg, init |-> TRUE] /\ pc' = "runend"
@@ -104,14 +110,15 @@ X0Eval ==
              ELSE /\ mdl' = InitModel(npt, IF DefHardEvalNum THEN 1 ELSE nx + 1, ran, v)
                   /\ pc' = "init" /\ UNCHANGED <<exitInfo, nruns, ret>>
   /\ rho' = RhoLevels /\ rhoendC' = rhoendL /\ softLSR' = 0
+  /\ phaseReq' \in 1..MaxSamples
   /\ softLastFopt' = IF x0inherit THEN best.obj ELSE IF Len(ptval') > 0 THEN ptval'[Len(ptval')] ELSE 0
-  /\ UNCHANGED <<rhoendL, hardLSR, best, geomLeft, addLeft, restarts, x0inherit, npt>>
+  /\ UNCHANGED <<rhoendL, hardLSR, best, geomLeft, addLeft, restarts, x0inherit, npt, geomDone>>
 
 \* generic: evaluate a point and either put it into slot k, or (on an exit) save it and leave
-EvalInto(k, after) ==
-  \E req \in 1..MaxSamples : \E v1 \in EvalVals : \E v \in EvalVals :
-    /\ (Ran(req) <= 1 => v = v1)
-    /\ Counted(req, v)
+EvalIntoR(k, after, reqs) ==
+  \E req \in reqs : \E v1 \in EvalVals : \E v \in EvalVals :
+    /\ (Ran(req) <= 1 => v = v1) /\ MeanOK(v1, v)
+    /\ Counted(req, v1, v)
     /\ LET e == BatchExit(req, v) IN
        IF e # NoExit
        THEN /\ mdl' = IF Ran(req) > 0 THEN SavePointM(mdl, v, Ran(req), nx + 1) ELSE mdl
@@ -119,13 +126,15 @@ EvalInto(k, after) ==
        ELSE /\ mdl' = IntoSlot(mdl, k, v1, v, Ran(req), nx + 1)
             /\ pc' = after /\ UNCHANGED <<exitInfo, nruns>>
 
+EvalInto(k, after) == EvalIntoR(k, after, 1..MaxSamples)
+
 \* initialise_coordinate_directions (controller.py:288-352): one point per step
 InitPoint ==
   /\ pc = "init"
   /\ IF Len(mdl.slots) >= npt
      THEN pc' = "loop" /\ NoEval /\ UNCHANGED <<mdl, exitInfo, nruns>>
-     ELSE EvalInto(Len(mdl.slots) + 1, "init")
-  /\ UNCHANGED <<ret, restarts>> /\ UNCHANGED Radii /\ UNCHANGED Hard /\ UNCHANGED Soft
+     ELSE EvalIntoR(Len(mdl.slots) + 1, "init", {phaseReq})
+  /\ UNCHANGED <<ret, restarts, phaseReq>> /\ UNCHANGED Radii /\ UNCHANGED Hard /\ UNCHANGED Soft
 
 \* ------------------------------------------------------------------------ main loop (solver.py:263-933)
 \* Interpolate (solver.py:305-332): forced to fail when a slot holds a non-finite value; may fail otherwise (singular)
@@ -134,7 +143,7 @@ Interpolate ==
   /\ \/ /\ mdl' = InterpM(mdl, FALSE) /\ RestartOrExit(Exit("linalg", "interp"))
      \/ /\ ~HasNonFinite(mdl) /\ (WithInf => \A k \in 1..Len(mdl.slots) : mdl.slots[k].obj # Inf)
         /\ mdl' = InterpM(mdl, TRUE) /\ pc' \in {"safety", "tr"} /\ UNCHANGED <<exitInfo, nruns>>
-  /\ NoEval /\ UNCHANGED <<ret, restarts>> /\ UNCHANGED Radii /\ UNCHANGED Hard /\ UNCHANGED Soft
+  /\ NoEval /\ UNCHANGED <<ret, restarts, phaseReq>> /\ UNCHANGED Radii /\ UNCHANGED Hard /\ UNCHANGED Soft
 
 \* reduce_rho (controller.py:719-733) on levels: rho drops one level, or to the controller's rhoend when close
 ReduceRho == rho' = IF rho - rhoendC <= 1 THEN rhoendC ELSE rho - 1
@@ -154,10 +163,10 @@ Safety ==
         /\ IF UseRestarts /\ SoftRestarts
            THEN pc' = "softadmit" /\ NoEval /\ UNCHANGED <<mdl, exitInfo, nruns>>
            ELSE \E req \in 1..MaxSamples : \E v \in EvalVals :
-                /\ Counted(req, v)
+                /\ Counted(req, v, v)
                 /\ mdl' = IF Ran(req) > 0 THEN SavePointM(mdl, v, Ran(req), nx + 1) ELSE mdl
                 /\ RunExit(IF BatchExit(req, v) # NoExit THEN BatchExit(req, v) ELSE Exit("success", "rhoend"))
-  /\ UNCHANGED <<ret, restarts>> /\ UNCHANGED Hard /\ UNCHANGED Soft
+  /\ UNCHANGED <<ret, restarts, phaseReq>> /\ UNCHANGED Hard /\ UNCHANGED Soft
 
 \* Trust-region step (solver.py:533-700)
 TRStep ==
@@ -165,8 +174,8 @@ TRStep ==
   /\ \/ \* choose_point_to_replace failed
         /\ RestartOrExit(Exit("linalg", "choose")) /\ NoEval /\ UNCHANGED mdl
      \/ \E req \in 1..MaxSamples : \E v1 \in EvalVals : \E v \in EvalVals :
-        /\ (Ran(req) <= 1 => v = v1)
-        /\ Counted(req, v)
+        /\ (Ran(req) <= 1 => v = v1) /\ MeanOK(v1, v)
+        /\ Counted(req, v1, v)
         /\ LET e == BatchExit(req, v) IN
            IF Ran(req) > 0 /\ (IsNaN(v1) \/ IsNaN(v))
            THEN \* NaN in the trial evaluation: leave without saving (solver.py:595-605)
@@ -181,24 +190,24 @@ TRStep ==
                    \E k \in 1..Len(mdl.slots) :
                      /\ (k = mdl.kopt => Lt(v, ObjOpt(mdl)))
                      /\ mdl' = IntoSlot(mdl, k, v1, v, Ran(req), nx + 1)
-                     /\ \/ pc' = "loop" /\ UNCHANGED <<exitInfo, nruns>>
+                     /\ \/ Lt(v, ObjOpt(mdl)) /\ pc' = "loop" /\ UNCHANGED <<exitInfo, nruns>>     \* successful step (ratio >= eta1): next iteration
                         \/ Lt(v, ObjOpt(mdl)) /\ RestartOrExit(Exit("slow", "slow"))
-                        \/ Lt(v, ObjOpt(mdl)) /\ mdl.save.has /\ Lt(mdl.save.obj, v) /\ RunExit(Exit("false_success", "false_success"))
+                        \/ WithFalseSuccess /\ Lt(v, ObjOpt(mdl)) /\ mdl.save.has /\ Lt(mdl.save.obj, v) /\ RunExit(Exit("false_success", "false_success"))
                         \/ ~Lt(v, ObjOpt(mdl)) /\ pc' = "trtail" /\ UNCHANGED <<exitInfo, nruns>>
-  /\ UNCHANGED <<ret, restarts>> /\ UNCHANGED Radii /\ UNCHANGED Hard /\ UNCHANGED Soft
+  /\ UNCHANGED <<ret, restarts, phaseReq>> /\ UNCHANGED Radii /\ UNCHANGED Hard /\ UNCHANGED Soft
 
 \* after an unsuccessful step: geometry / reduce rho / stop (solver.py:858-931)
 TRTail ==
   /\ pc = "trtail"
   /\ \/ (\E k \in 1..Len(mdl.slots) : k # mdl.kopt /\ EvalInto(k, "loop")) /\ UNCHANGED Radii
      \/ RestartOrExit(Exit("linalg", "geom")) /\ NoEval /\ UNCHANGED mdl /\ UNCHANGED Radii
-     \/ UseRestarts /\ RestartOrExit(Exit("auto", "auto")) /\ NoEval /\ UNCHANGED mdl /\ UNCHANGED Radii
+     \/ WithAuto /\ UseRestarts /\ RestartOrExit(Exit("auto", "auto")) /\ NoEval /\ UNCHANGED mdl /\ UNCHANGED Radii
      \/ pc' = "loop" /\ NoEval /\ UNCHANGED <<mdl, exitInfo, nruns>> /\ UNCHANGED Radii
      \/ rho > rhoendL /\ ReduceRho /\ pc' = "loop" /\ NoEval /\ UNCHANGED <<mdl, exitInfo, nruns, rhoendL, rhoendC>>
      \/ /\ ~(rho > rhoendL) /\ NoEval /\ UNCHANGED mdl /\ UNCHANGED Radii
         /\ IF UseRestarts /\ SoftRestarts THEN pc' = "softadmit" /\ UNCHANGED <<exitInfo, nruns>>
            ELSE RunExit(Exit("success", "rhoend"))
-  /\ UNCHANGED <<ret, restarts>> /\ UNCHANGED Hard /\ UNCHANGED Soft
+  /\ UNCHANGED <<ret, restarts, phaseReq>> /\ UNCHANGED Hard /\ UNCHANGED Soft
 
 \* ------------------------------------------------------------------ soft restart (controller.py:782-869)
 SoftAdmit ==
@@ -215,6 +224,8 @@ SoftAdmit ==
                 /\ geomLeft' = MinI(NumGeom, IF MoveXk THEN Len(mdl.slots) ELSE Len(mdl.slots) - 1)
                 /\ addLeft' = IF IncNpt > 0 /\ Len(mdl.slots) < NPT + IncNpt THEN 1 ELSE 0
                 /\ pc' = "softgeom" /\ UNCHANGED <<exitInfo, nruns>>
+  /\ phaseReq' \in 1..MaxSamples
+  /\ geomDone' = IF MoveXk THEN {} ELSE {mdl.kopt}     \* without move_xk the incumbent of this moment is excluded from the closest-point list
   /\ NoEval /\ UNCHANGED <<rhoendL, rhoendC, ret, restarts>> /\ UNCHANGED Hard
 
 SoftDone == /\ pc' = "loop" /\ nruns' = nruns + 1 /\ restarts' = restarts + 1
@@ -224,25 +235,25 @@ SoftDone == /\ pc' = "loop" /\ nruns' = nruns + 1 /\ restarts' = restarts + 1
 SoftGeom ==
   /\ pc = "softgeom"
   /\ IF geomLeft > 0
-     THEN /\ \E k \in 1..Len(mdl.slots) :
-               /\ (MoveXk /\ geomLeft = MinI(NumGeom, Len(mdl.slots)) => k = mdl.kopt)   \* the incumbent is its own closest point
-               /\ (~MoveXk => k # mdl.kopt)
-               /\ EvalInto(k, "softgeom")
+     THEN /\ \E k \in (1..Len(mdl.slots)) \ geomDone :
+               /\ (MoveXk /\ geomDone = {} => k = mdl.kopt)   \* the incumbent is its own closest point
+               /\ EvalIntoR(k, "softgeom", {phaseReq})
+               /\ geomDone' = geomDone \cup {k}
           /\ geomLeft' = geomLeft - 1 /\ UNCHANGED <<addLeft, restarts, rhoendL, rhoendC>>
      ELSE IF addLeft > 0
      THEN \* restarts.increase_npt: evaluate and append a new point (add_new_point)
-          /\ \E req \in 1..MaxSamples : \E v1 \in EvalVals : \E v \in EvalVals :
-               /\ (Ran(req) <= 1 => v = v1)
-               /\ Counted(req, v)
+          /\ \E req \in {phaseReq} : \E v1 \in EvalVals : \E v \in EvalVals :
+               /\ (Ran(req) <= 1 => v = v1) /\ MeanOK(v1, v)
+               /\ Counted(req, v1, v)
                /\ LET e == BatchExit(req, v) IN
                   IF e # NoExit
                   THEN /\ mdl' = IF Ran(req) > 0 THEN SavePointM(mdl, v, Ran(req), nx + 1) ELSE mdl
                        /\ RunExit(e)
                   ELSE /\ mdl' = (IF Ran(req) >= 2 THEN AddSampleN(AddPointM(mdl, v1, nx + 1), Len(mdl.slots) + 1, v, Ran(req)) ELSE AddPointM(mdl, v1, nx + 1))
                        /\ UNCHANGED <<pc, exitInfo, nruns>>
-          /\ addLeft' = addLeft - 1 /\ UNCHANGED <<geomLeft, restarts, rhoendL, rhoendC>>
-     ELSE /\ SoftDone /\ NoEval /\ UNCHANGED <<mdl, exitInfo, geomLeft, addLeft>>
-  /\ UNCHANGED <<rho, softLSR, softLastFopt, ret>> /\ UNCHANGED Hard
+          /\ addLeft' = addLeft - 1 /\ UNCHANGED <<geomLeft, restarts, rhoendL, rhoendC, geomDone>>
+     ELSE /\ SoftDone /\ NoEval /\ UNCHANGED <<mdl, exitInfo, geomLeft, addLeft, geomDone>>
+  /\ UNCHANGED <<rho, softLSR, softLastFopt, ret, phaseReq>> /\ UNCHANGED Hard
 
 \* ------------------------------------------------ end of a run, hard-restart loop, merge, packaging (solver.py:935-940, 1120-1173)
 RunEnd ==
@@ -264,7 +275,7 @@ RunEnd ==
                                    e1 == IF nruns - hls >= MaxUnsucc THEN Exit("success", "max_unsucc") ELSE e0
                                IN IF ~DefSuccessNonFinite /\ e1.flag = "success" /\ ~IsFinite(nbest.obj) THEN Exit("eval_error", "nonfinite") ELSE e1
   /\ mdl' = NoModel /\ ret' = NoBest
-  /\ NoEval /\ UNCHANGED <<nruns, rho, rhoendC, softLSR, softLastFopt, geomLeft, addLeft>>
+  /\ NoEval /\ UNCHANGED <<nruns, rho, rhoendC, softLSR, softLastFopt, geomLeft, addLeft, phaseReq, geomDone>>
 
 Done == pc = "done" /\ UNCHANGED vars
 
